@@ -532,9 +532,10 @@ func init() {
 // statement is about "an asynchronous logger", not about one Go type; C04: Block delivers everything).
 // The disk is stalled (write gate closed), 100 raw lines fill the buffer, then a producer submits three
 // more items (raw, event, raw) while the worker may take at most one item and wait for the disk:
-//   Block          the producer waits; once the disk is back everything (103 items) is in the files;
+//   Block          nothing is dropped: once the disk is back everything (103 items) is in the files;
 //   Discard        the calls return although the disk is stalled; no buffered line is ever dropped;
-//   DiscardOldest  the calls return; the three arriving items are all kept, at most 3 of the OLDEST lines go.
+//   DiscardOldest  the calls return; the three arriving items are all kept, at most 3 lines go, each the oldest
+//                  still buffered at that moment (so all of them near the front).
 // ---------------------------------------------------------------------------------------------
 
 type overflowKind struct {
@@ -646,11 +647,14 @@ func overflowScenario(prop string, k overflowKind, b zzvrt.Bounds) *zzvrt.Scenar
 					pos[id] = i
 				}
 				missingP := 0
-				lastP := -1
+				firstP, lastP := -1, -1
 				for i := 0; i < 100; i++ {
 					id := fmt.Sprintf("p%03d", i)
 					if _, ok := pos[id]; !ok {
 						missingP++
+						if firstP < 0 {
+							firstP = i
+						}
 						lastP = i
 					}
 				}
@@ -679,8 +683,12 @@ func overflowScenario(prop string, k overflowKind, b zzvrt.Bounds) *zzvrt.Scenar
 					if missingA > 0 {
 						add("C06", "discardoldest-dropped-arriving-item", fmt.Sprintf("DiscardOldest policy: %s lacks %d arriving item(s) although 100 older lines were buffered", n, missingA))
 					}
-					if missingP > 3 || (missingP > 0 && lastP >= 4) {
-						add("C06", "discardoldest-dropped-not-oldest", fmt.Sprintf("DiscardOldest policy: %s lacks %d buffered lines, the youngest of them p%03d (three arrivals can evict at most the three oldest)", n, missingP, lastP))
+					// what goes is, each time, the oldest line still BUFFERED: the front of the queue is removed in order, by the
+					// worker (one line, or a batch - how many it holds while the disk is stalled is its own business; the
+					// directed sequences bound it by 64) or by an eviction. So at most three lines are missing and they sit
+					// among the first 3 + 64
+					if missingP > 3 || lastP >= 3+64 {
+						add("C06", "discardoldest-dropped-not-oldest", fmt.Sprintf("DiscardOldest policy: %s lacks %d buffered lines between p%03d and p%03d (three arrivals evict at most three lines, each the oldest still buffered)", n, missingP, firstP, lastP))
 					}
 				}
 				// per-producer order of what is present (prefill and arrivals each came from one goroutine)
@@ -706,10 +714,8 @@ func overflowScenario(prop string, k overflowKind, b zzvrt.Bounds) *zzvrt.Scenar
 			if pol != "Block" && blockedWhileStalled {
 				add("C06", "discard-policy-waited", fmt.Sprintf("%s policy: a log call had not returned while the disk was stalled (returned %d of 3)", pol, returned))
 			}
-			if pol == "Block" && !blockedWhileStalled {
-				// 100 buffered + at most one in the worker's hands: the third arrival at the latest has to wait for space
-				add("C06", "block-did-not-wait", "Block policy: all three calls returned although the buffer was full and the disk stalled")
-			}
+			// (whether a Block call had to wait depends on how many items the worker holds outside the buffer - one, or a
+			// batch; that is not the statement's business. What it says is checked above: nothing is dropped.)
 			fmt.Fprintf(&sb, "blocked=%v", blockedWhileStalled)
 			return sb.String(), v
 		},
